@@ -153,6 +153,21 @@ fn gen(_rng: &mut Rng, tier: &str) -> Vec<(String, Value)> {
 }
 
 fn run(input: &Value) -> CaseOut {
+    // the notification stream needs a free TCP port and a client that gets through: when the client never
+    // synchronised (port taken by another process between choosing and binding it, server not up in time)
+    // nothing was observed, and the case is run again (up to four times) instead of being reported
+    if input["observe"].as_bool().unwrap_or(false) {
+        let mut last = run_once(input);
+        for _ in 0..3 {
+            if last.obs["synced_at_run"].as_u64().unwrap_or(0) > 0 && last.obs["ended"].as_bool().unwrap_or(false) { break }
+            last = run_once(input);
+        }
+        return last
+    }
+    run_once(input)
+}
+
+fn run_once(input: &Value) -> CaseOut {
     let cmd = input["cmd"].as_str().unwrap();
     let outcomes: Vec<u64> = input["outcomes"].as_array().unwrap().iter().map(|x| x.as_u64().unwrap()).collect();
     let dir = tempfile::tempdir().unwrap();
